@@ -108,6 +108,7 @@ def run(ctx):
     viol, drift = gc.validate(ctx, traces, "validate %d recorded traces against GridLazy" % len(traces))
     ctx.note("phase_seconds", {"model": round(t1 - t0, 1), "generate": round(t2 - t1, 1), "replay": round(t3 - t2, 1), "validate": round(time.time() - t3, 1)})
     gc.report(ctx, traces, viol, drift)
+    gc.binding_selftest(ctx, [t for t in traces if t["tid"] not in viol])
     if thorough:
         # code -> specification on the histories the repository's own tests perform
         gc.recorder_run(ctx)
